@@ -194,6 +194,10 @@ const (
 	vHost         = "km.verif.test:33443"
 )
 
+// vPrimaryPatience: how long a profile read waits for the primary in harness
+// worlds whose primary is meant to be available.
+const vPrimaryPatience = 15 * time.Minute
+
 type vWorldOpts struct {
 	SignerKind           string // default rsa2048
 	Ed25519CA            bool
@@ -381,6 +385,9 @@ func vNewWorld(opts vWorldOpts) *vWorld {
 		}
 		// stop the background copier at once: checks drive synchronisation themselves
 		state.dbDone <- struct{}{}
+		// a busy machine must not be mistaken for an outage of the primary (the
+		// 2 s default makes profile reads fall back to the cache under load)
+		state.remoteDBQueryTimeout = vPrimaryPatience
 	}
 	return w
 }
@@ -774,6 +781,7 @@ func vLoadedState(passphrase string, tweak func(cfg *AppConfigFile)) (*RuntimeSt
 		panic(fmt.Sprintf("verif: loadVerifyConfigFile: %v", err))
 	}
 	state.dbDone <- struct{}{}
+	state.remoteDBQueryTimeout = vPrimaryPatience
 	return state, dataDir
 }
 
